@@ -400,7 +400,8 @@ def gen_custom(rng, ctx, nv, outside=False):
             ident = rng.choice(["identity", "x-other", typ + "x"]) + "--" + uuid4(rng)
             flags = ["badprefix"]
         elif how == "nonuuid":
-            ident = typ + "--" + rng.choice(["not-a-uuid", hexstr(rng, 32), "1"])
+            # not of the form <uuid>; made unique (two families sharing one id is C11's subject)
+            ident = typ + "--" + rng.choice(["not-a-uuid-" + hexstr(rng, 6), hexstr(rng, 32), str(rng.randrange(1, 10 ** 9))])
             flags = ["nonuuid"]
         else:
             ident = typ + "--" + uuid4(rng).upper()        # still matches the (case-insensitive) pattern
@@ -1204,6 +1205,10 @@ def same_line(route, g, m, scan=None):
         return g == m
     pg, pm = parse_line(g), parse_line(m)
     if pg[0] == "EXC" and pm[0] == "EXC" and scan is not None and scan.startswith("EXC"):
+        return True
+    # the same holds among the version files of one id directory, and the filesystem source evaluates the
+    # filters in another order ([id filter] + attached + composite) than the memory source (composite + attached)
+    if pg[0] == "EXC" and pm[0] == "EXC" and {pg[1], pm[1]} <= {"TypeError", "AttributeError", "ValueError"}:
         return True
     return (pg[0] == pm[0]) and (pg[1] == pm[1])
 
